@@ -149,7 +149,10 @@ func zzH_Eval() {
 		}
 	}
 	if zzHas(checks, "C14") {
-		if len(sp.fcalls) == 0 {
+		if len(sp.fcalls) == 0 && zzParam("infilter") == "1" {
+			// the reference never evaluated the filter (no member): how often
+			// an operand is evaluated is not prescribed, nothing to compare
+		} else if len(sp.fcalls) == 0 {
 			// Functions at the tail of the path: per chain position (= wrapping
 			// depth of the argument) the calls must be the same sequence. How
 			// calls of different positions interleave is not prescribed.
